@@ -40,3 +40,108 @@ def model_check(ctx):
 
 def replay_behaviours(ctx):
     pass
+
+
+# ---------------------------------------------------------------------------------------------
+# implementation conformance (code -> spec): recorded executions against Cache.tla
+import json as _json
+import os as _os
+import re as _re
+import tempfile as _tempfile
+import shutil as _shutil
+
+
+def _prep(sc, r):
+    """Observable events with projections, in the alphabet of Cache.tla; None if out of the model's scope."""
+    loops = [ls['name'] for ls in sc['loops']]
+    callers = {}
+    for ls in sc['loops']:
+        for cs in ls['callers']:
+            if cs.get('tmo') is not None or cs['k'] != 'a':
+                return None
+            callers[cs['c']] = ls['name']
+    if len(loops) > 3 or len(callers) > 4 or sc.get('mapping') == 'tiny':
+        return None
+    ev = []
+    seen_running = set()
+    for e in r['events']:
+        k = e['e']
+        if k in ('Tick', 'LoopShutdown', 'End', 'Hang', 'ThreadCrash'):
+            continue
+        if k == 'LoopRunning' and e['loop'] not in seen_running:
+            seen_running.add(e['loop'])      # the model starts with every loop running
+            continue
+        if 'st' not in e:
+            return None
+        d = {x: y for x, y in e.items() if x != 'n'}
+        ev.append(d)
+    if any(c not in range(1, len(callers) + 1) for c in callers):
+        return None
+    return {'loops': loops, 'callers': callers, 'events': ev}
+
+
+def conformance(ctx, executed, limit=120):
+    """executed: list of (scenario, result, verdict).  Validates up to `limit` small traces against
+    Cache.tla (CacheConform.tla); records accepted / drift counts in the evidence."""
+    from harness import tlc
+    groups = {}
+    for sc, r, v in executed:
+        if r.get('status') != 'ok' or any(x is not None for x in v.values()):
+            continue
+        p = _prep(sc, r)
+        if p is None or len(p['events']) > 70:
+            continue
+        key = (tuple(p['loops']), tuple(sorted(p['callers'].items())))
+        groups.setdefault(key, []).append(p)
+    total = acc = undecided = 0
+    drift = []
+    for key, items in sorted(groups.items(), key=lambda kv: -len(kv[1])):
+        if total >= limit:
+            break
+        items.sort(key=lambda p: len(p['events']))
+        items = items[:max(1, min(len(items), limit - total, 25))]
+        loops, callers = key
+        loopset = '{' + ', '.join('"%s"' % x for x in loops) + '}'
+        loopof = ' @@ '.join('(%d :> "%s")' % (c, lp) for c, lp in callers) or '<<>>'
+        mod = ('---- MODULE MC_CacheConform ----\nEXTENDS CacheConform\nCLoops == %s\nCCallers == 1..%d\nCLoopOf == %s\n====\n'
+               % (loopset, len(callers), loopof))
+        cfg = ('INIT CInit\nNEXT CNext\nCONSTANTS\n Loops <- CLoops\n Callers <- CCallers\n LoopOf <- CLoopOf\n MaxInv = 9\n MaxRetry = 9\n'
+               ' OwnMarkerOnly = TRUE\n ForeignCancelRetry = TRUE\n LifeCycles = TRUE\n Cancels = TRUE\n Failures = TRUE\n Timeouts = TRUE\n'
+               'CONSTRAINT Reached\nCONSTRAINT NotYetAccepted\nCHECK_DEADLOCK FALSE\n')
+        work = tlc.scratch('conf-')
+        try:
+            tf = _os.path.join(work, 'traces.json')
+            with open(tf, 'w') as f:
+                _json.dump([p['events'] for p in items], f)
+            out, dt, rc = tlc.run_tlc('cache', 'MC_CacheConform', 'MC_CacheConform.cfg', workers=1, timeout=int(_os.environ.get('CONF_TIMEOUT', '120')),
+                                      env={'TRACE_FILE': tf}, cfg_text=cfg,
+                                      extra_files={'MC_CacheConform.tla': mod},
+                                      jvm=['-Dtlc2.tool.queue.IStateQueue=StateDeque'])
+        finally:
+            _shutil.rmtree(work, ignore_errors=True)
+        r = tlc.parse_mc(out)
+        if r['error'] and r['error'] != 'timeout':
+            ctx.notes.append('conformance: TLC error on group %r: %s' % (key, r['error'][:200]))
+            continue
+        reached = {}
+        for m in _re.finditer(r'<< ?"REACHED", (\d+), (\d+), (\d+) ?>>', _re.sub(r'\s+', ' ', out)):
+            t_, l_, n_ = int(m.group(1)), int(m.group(2)), int(m.group(3))
+            reached[t_] = max(reached.get(t_, 0), l_)
+        for i, p in enumerate(items, 1):
+            total += 1
+            if reached.get(i, 1) >= len(p['events']) + 1:
+                acc += 1
+            elif r['error'] == 'timeout':
+                undecided += 1      # the search for this group was cut off: neither accepted nor rejected
+            else:
+                pos = reached.get(i, 1)
+                drift.append({'matched_prefix': pos - 1, 'of': len(p['events']),
+                              'first_unexplained': p['events'][pos - 1] if pos - 1 < len(p['events']) else None})
+        ctx.cov['states'] += r['distinct']
+        ctx.cov['transitions'] += r['generated']
+    ctx.cov['conformance'] = {'traces_checked': total, 'accepted': acc, 'drift': len(drift), 'undecided_timeout': undecided,
+                              'drift_samples': drift[:3],
+                              'what': 'recorded executions validated against Cache.tla with silent internal steps; projected state '
+                                      '(cache, marker loop, lock held) compared at every observable event'}
+    ctx.cov['conformance_divergences'] = len(drift)
+    return total, acc, drift
